@@ -195,7 +195,7 @@ fn c17_check(case: &Case, ctx: &mut Ctx) -> Result<(), String> {
     let barrier = std::sync::Barrier::new(threads);
     let in_flight = AtomicUsize::new(0);
     let max_in_flight = AtomicUsize::new(0);
-    let rounds = 2usize;
+    let rounds = 3usize;
     let failure: std::sync::Mutex<Option<String>> = std::sync::Mutex::new(None);
     std::thread::scope(|sc| {
         for t in 0..threads {
@@ -256,8 +256,16 @@ fn c17_check(case: &Case, ctx: &mut Ctx) -> Result<(), String> {
 fn c17_strategy(_tier: Tier) -> BoxedStrategy<Case> {
     let base = gen::search_case(SearchOpts {
         prop: "C17",
-        cfg: CfgOpts { casei: 1, anchored: 1, ..CfgOpts::default() },
-        pats: PatOpts { w_empty: 3, max_class: 1, long: false, w_shapes: 8, w_adversarial: 1, w_fanout: 0 },
+        // the contiguous NFA (also what the automatic choice gives for > 100
+        // patterns) is drawn more often: it is the representation with the
+        // most per-search arithmetic
+        cfg: CfgOpts {
+            casei: 1,
+            anchored: 1,
+            engines: vec![Engine::TopC, Engine::LowC, Engine::TopC, Engine::TopAuto, Engine::TopNc, Engine::LowNc, Engine::TopDfa, Engine::LowDfa, Engine::TopAuto],
+            ..CfgOpts::default()
+        },
+        pats: PatOpts { w_empty: 3, max_class: 1, long: false, w_shapes: 8, w_adversarial: 8, w_fanout: 0 },
         hay: HayOpts { size_class: 2 },
         full_span_only: true,
         alphabets: gen::default_alphabets(),
@@ -271,7 +279,21 @@ fn c17_strategy(_tier: Tier) -> BoxedStrategy<Case> {
             case.ops = ops
                 .into_iter()
                 .map(|(handle, api, pieces, sr, anchored, reuse)| {
-                    let haystack = if reuse { main_hay.clone() } else { gen::realize_haystack(&pieces, &case.patterns, &alpha, 1) };
+                    let mut haystack = if reuse { main_hay.clone() } else { gen::realize_haystack(&pieces, &case.patterns, &alpha, 1) };
+                    // every third op: a haystack that rides long failure
+                    // chains (near-miss repeats of the longest pattern)
+                    if (handle as usize + api as usize) % 3 == 0 && !case.patterns.is_empty() {
+                        let longest = case.patterns.iter().max_by_key(|p| p.len()).unwrap();
+                        if longest.len() >= 2 {
+                            let body = &longest[..longest.len() - 1];
+                            let mut h = Vec::new();
+                            while h.len() < 120 {
+                                h.extend_from_slice(body);
+                                h.push(haystack.first().copied().unwrap_or(b'x'));
+                            }
+                            haystack = h;
+                        }
+                    }
                     let span = gen::realize_span(sr, haystack.len());
                     let span = if span.0 > span.1 { (0, haystack.len()) } else { span };
                     Op { handle, api, haystack, span, anchored }
@@ -317,7 +339,88 @@ fn source_scan() -> serde_json::Value {
     serde_json::json!(hits)
 }
 
-fn c17_extra(_tier: Tier, _seed: u64, ctx: &mut Ctx) -> Result<bool, crate::runner::Violation> {
+/// Contention sub-run: many threads hammer ONE shared searcher with searches
+/// that ride deep failure chains (different haystacks per thread), thousands
+/// of times, and compare every result with the sequentially computed one.
+/// This is where a racy cache inside a search routine would tear.
+fn hammer(tier: Tier, ctx: &mut Ctx) -> Result<(), crate::runner::Violation> {
+    use crate::case::{Cfg, Sk};
+    let iterations = if tier == Tier::Thorough { 6000 } else { 1500 };
+    let alphas: [&[u8]; 2] = [b"ab", b"xyz"];
+    let mut configs = 0u64;
+    for engine in [Engine::TopC, Engine::LowC, Engine::TopNc, Engine::TopDfa, Engine::TopAuto] {
+        for mk in Mk::ALL {
+            for (ai, alpha) in alphas.iter().enumerate() {
+                for kind in [1u8, 3, 4, 5] {
+                    let list = gen::PatList::Adversarial { kind, k: 9 + ai as u8 * 3, n: 10 };
+                    let patterns = gen::realize_patterns(&list, alpha);
+                    let cfg = Cfg { engine, mk, sk: Sk::Unanchored, prefilter: kind % 2 == 0, dense_depth: 1, byte_classes: true, casei: false };
+                    let case = Case { prop: "C17".into(), sub: "hammer".into(), cfg: cfg.clone(), patterns: patterns.clone(), threads: 8, ..Case::default() };
+                    let fail = |reason: String| crate::runner::Violation { case: case.clone(), reason };
+                    let s = Searcher::build(&cfg, &patterns).map_err(|e| fail(e))?;
+                    // per-thread haystacks: near-miss repeats of different patterns
+                    let hays: Vec<Vec<u8>> = (0..8usize)
+                        .map(|t| {
+                            let p = &patterns[t % patterns.len()];
+                            let q = &patterns[(t * 3 + 1) % patterns.len()];
+                            let mut h = Vec::new();
+                            while h.len() < 90 {
+                                h.extend_from_slice(&p[..p.len().saturating_sub(1)]);
+                                h.push(alpha[t % alpha.len()]);
+                                h.extend_from_slice(&q[..q.len() / 2]);
+                            }
+                            h
+                        })
+                        .collect();
+                    let expect: Vec<Vec<crate::model::M>> = hays
+                        .iter()
+                        .map(|h| Occ::new(&patterns, h, false).iter(mk, 0, h.len(), false))
+                        .collect();
+                    let barrier = std::sync::Barrier::new(hays.len());
+                    let bad: std::sync::Mutex<Option<String>> = std::sync::Mutex::new(None);
+                    std::thread::scope(|sc| {
+                        for (t, h) in hays.iter().enumerate() {
+                            let (s, expect, barrier, bad) = (&s, &expect, &barrier, &bad);
+                            sc.spawn(move || {
+                                barrier.wait();
+                                for it in 0..iterations {
+                                    let r = guard(|| s.try_find_iter(input(h, (0, h.len()), false, false)));
+                                    let ok = matches!(&r, Ok(Ok(v)) if *v == expect[t]);
+                                    if !ok {
+                                        let mut b = bad.lock().unwrap();
+                                        if b.is_none() {
+                                            *b = Some(format!(
+                                                "contention run: thread {} iteration {} on haystack {:?} got {:?}, sequential model says {:?}",
+                                                t,
+                                                it,
+                                                crate::case::esc::to_string(h),
+                                                r.map(|x| x.map_err(|e| e.to_string())),
+                                                expect[t]
+                                            ));
+                                        }
+                                        return;
+                                    }
+                                }
+                            });
+                        }
+                    });
+                    if let Some(b) = bad.into_inner().unwrap() {
+                        let mut v = fail(b);
+                        v.case.ops = hays.iter().map(|h| Op { handle: 0, api: 2, haystack: h.clone(), span: (0, h.len()), anchored: false }).collect();
+                        return Err(v);
+                    }
+                    configs += 1;
+                }
+            }
+        }
+    }
+    ctx.count("contention_configs", configs);
+    ctx.count("contention_searches", configs * 8 * iterations as u64);
+    Ok(())
+}
+
+fn c17_extra(tier: Tier, _seed: u64, ctx: &mut Ctx) -> Result<bool, crate::runner::Violation> {
+    hammer(tier, ctx)?;
     let hits = source_scan();
     ctx.count("interior_mutability_keyword_hits_outside_hooks", hits.as_array().map_or(0, |a| a.len()) as u64);
     if let Some(a) = hits.as_array() {
@@ -332,8 +435,8 @@ pub const C17: PropDef = PropDef {
     id: "C17",
     rule: "generated histories of 2..10 operations (find, earliest, find_iter, overlapping steps, is_match, replace_all_bytes, stream search, packed find_iter) over {searcher, clone, clone of clone, a second searcher with longer patterns derived from the same list, its clone} x generated haystacks/spans/anchoring (stream searches use 1..4-byte reads at the default buffer capacity), all engines and match kinds. \
 Oracle: (1) sequential: every value-defined result equals the reference model; (2) history independence: every operation re-run later, in reverse order and on each handle of the same searcher, returns the identical value; \
-(3) concurrency: 2..8 threads (released together by a barrier) run rotated slices of the history twice on the shared searchers and clones, every result must equal the sequential one; an in-flight counter measures whether searches actually overlapped. \
-A keyword scan of /repo/src for interior mutability outside the verification hooks is recorded as context only (it never produces a violation). \
+(3) concurrency: 2..8 threads (released together by a barrier) run rotated slices of the history three times on the shared searchers and clones, every result must equal the sequential one; an in-flight counter measures whether searches actually overlapped. \
+A contention sub-run hammers one shared searcher per (5 engines x 3 match kinds x 8 adversarial deep-failure-chain pattern sets) from 8 barrier-released threads, each repeating its own chain-riding search 1500 (thorough 6000) times against the sequential model result. A keyword scan of /repo/src for interior mutability outside the verification hooks is recorded as context only (it never produces a violation). \
 Non-trivial = at least two searches were in flight at the same time and the history uses at least two different handles. Distinct = distinct case fingerprint.",
     assumptions: &[
         "interleavings are sampled by the OS scheduler, not enumerated; this family cannot decide the schedule quantifier exhaustively",
